@@ -297,7 +297,7 @@ func run(r *core.Run) {
 
 	// P1: D1, every op, every digit count / radix, both routes
 	phase("D1_format", func() bool {
-		ok := r.Parallel(1<<16, 64, func(w int, lo, hi int64) {
+		ok := r.Parallel(1<<16, 16, func(w int, lo, hi int64) {
 			e := rn.env(w)
 			var fs []fail
 			for h := lo; h < hi; h++ {
@@ -359,7 +359,7 @@ func run(r *core.Run) {
 		phase(fmt.Sprintf("D2_shortest_b%d", b), func() bool {
 			pats := d2Patterns(b)
 			n := int64(len(pats)) * 2047
-			ok := r.Parallel(n, 512, func(w int, lo, hi int64) {
+			ok := r.Parallel(n, 256, func(w int, lo, hi int64) {
 				e := rn.env(w)
 				var fs []fail
 				var evals, nt int64
@@ -413,7 +413,9 @@ func run(r *core.Run) {
 		}
 		return ok
 	})
-	dd := d4
+	// quick: the centres 10^k, 2^k only; thorough: the quick tier's D4 (the full thorough D4 x ~230 texts of up to
+	// 1100 digits would take most of the budget for a route that is backed by strconv)
+	dd := buildD4(d4opts{ulps: 1, exhK: 1, expLo: -330, expHi: 300, expStep: 100, dense: 5, extra: []int{-323, -308, -20, 21, 22, 290, 307}, few: true})
 	if r.Quick() {
 		dd = buildD4(d4opts{ulps: 0, exhK: 0, expLo: 1, expHi: 0, noSeeds: true})
 	}
@@ -427,7 +429,7 @@ func run(r *core.Run) {
 			if r.Quick() {
 				rn.setBound("derived_texts_D4", fmt.Sprintf("the %d doubles nearest to 10^k and equal to 2^k (all k)", len(dd)))
 			} else {
-				rn.setBound("derived_texts_D4", fmt.Sprintf("all %d D4 values", len(dd)))
+				rn.setBound("derived_texts_D4", fmt.Sprintf("the %d doubles of the quick tier's D4 (+-1 ulp of every 10^k, 2^k and of the structured decimal halfway points)", len(dd)))
 			}
 		}
 		return ok
@@ -465,17 +467,17 @@ func (rn *runner) d4opts() d4opts {
 func (rn *runner) lens() []int {
 	if rn.r.Thorough() {
 		l := []int{}
-		for i := 1; i <= 40; i++ {
+		for i := 1; i <= 25; i++ {
 			l = append(l, i)
 		}
-		return append(l, 50, 100, 200, 400, 700, 765, 766, 767, 768, 799, 800)
+		return append(l, 30, 40, 50, 100, 200, 400, 766, 767, 768, 800)
 	}
 	return []int{1, 2, 3, 8, 15, 16, 17, 18, 19, 20, 21, 25, 40, 100, 400, 767}
 }
 
 func (rn *runner) exts() []int {
 	if rn.r.Thorough() {
-		return []int{17, 19, 20, 21, 30, 100, 400, 766, 767, 768, 799, 800, 801, 1100}
+		return []int{17, 20, 21, 100, 767, 768, 800, 801, 1100}
 	}
 	return []int{17, 20, 100, 800, 801}
 }
